@@ -59,13 +59,13 @@ fn strategy_long(vd: &'static ViewDef) -> BoxedStrategy<Case> {
 }
 
 /// one prefix is 135 000 values long (thorough 1.1e6; past 2^16 and 2^17 updates), derived in the check from ints = [K, N, seed, len, shape]
-fn strategy_ultra(vd: &'static ViewDef) -> impl Fn(Tier) -> BoxedStrategy<Case> + Send + Sync {
+fn strategy_ultra(vd: &'static ViewDef, exact: bool) -> impl Fn(Tier) -> BoxedStrategy<Case> + Send + Sync {
     move |tier: Tier| {
         (prop_oneof![3 => vd.min_n..=vd.min_n + 7, 1 => 9usize..=40], 1usize..=4, any::<u64>(), 0i64..4)
             .prop_flat_map(move |(n, m, seed, shape)| {
                 let k = (vd.k)(n, m);
                 let cfg = StreamCfg::new(n).scale(Rat(1, 8)).kmax(1 << 20);
-                (gen::stream(cfg.len(k, k + n).segs(5)), gen::stream(cfg.len(0, 3 * n).segs(3))).prop_map(move |(s, p2)| Case { spec: Some((vd.mk)(n, m)), xs: vec![], ys: p2, zs: s, a: Rat(1, 1), b: Rat(0, 1), ints: vec![k as i64, n as i64, (seed >> 1) as i64, tier.pick(135_000, 1_100_000) as i64, shape], ..Default::default() })
+                (gen::stream(cfg.len(k, k + n).segs(5)), gen::stream(cfg.len(0, 3 * n).segs(3))).prop_map(move |(s, p2)| Case { spec: Some((vd.mk)(n, m)), xs: vec![], ys: p2, zs: s, a: Rat(1, 1), b: Rat(0, 1), ints: vec![k as i64, n as i64, (seed >> 1) as i64, (if exact { 135_000 } else { tier.pick(135_000, 1_100_000) }) as i64, shape], ..Default::default() })
             })
             .boxed()
     }
@@ -281,10 +281,10 @@ pub fn clauses() -> Vec<Clause> {
         if vd.exemption == 0 && !vd.name.starts_with("PFE") {
             v.push(Clause::generated("C03", format!("C03/{}/chained/Q", vd.name), "the view (N in its minimum..12, thorough ..40) over Sma, Max, Min or Cumulative of window M in 2..6 instead of over Echo: two histories (prefixes of 1..4N+3 and 0..4N+3 values, the first scaled by 2^e, e <= 20; one case in three with an empty second prefix) sharing their last K + M - 1 raw values must agree from there on, exactly in Q. A view that keeps anything of the raw input instead of its inner view's output, or of the first values it ever saw, fails here and nowhere over Echo. Non-trivial as for the suffix clauses.", 400, 10_000, strategy_chained(vd), check(vd, true)).with_shard(100));
         }
-        let urule = "one prefix of 135 000 values (thorough 1.1e6; past 2^16 and 2^17 updates: wide noise, walk with plateaus, zero stretches or ties around a level, on the 1/8 grid, derived from a generated seed), the other 0..3N grammar values, N from the view's minimum to +7 (1 in 4: 9..40); same oracle and non-triviality rule.";
-        v.push(Clause::generated("C03", format!("C03/{}/ultra/Q", vd.name), urule, 1, 20, strategy_ultra(vd), check(vd, true)).with_shard(1));
+        let urule = "one prefix of 135 000 values (f64 leg of the thorough tier: 1.1e6; the exact leg stays at 135 000, its arena of big values is bounded; past 2^16 and 2^17 updates: wide noise, walk with plateaus, zero stretches or ties around a level, on the 1/8 grid, derived from a generated seed), the other 0..3N grammar values, N from the view's minimum to +7 (1 in 4: 9..40); same oracle and non-triviality rule.";
+        v.push(Clause::generated("C03", format!("C03/{}/ultra/Q", vd.name), urule, 1, 20, strategy_ultra(vd, true), check(vd, true)).with_shard(1));
         if vd.f64_leg {
-            v.push(Clause::generated("C03", format!("C03/{}/ultra/f64", vd.name), urule, 1, 20, strategy_ultra(vd), check(vd, false)).with_shard(1));
+            v.push(Clause::generated("C03", format!("C03/{}/ultra/f64", vd.name), urule, 1, 20, strategy_ultra(vd, false), check(vd, false)).with_shard(1));
         }
         if vd.f64_leg {
             v.push(Clause::generated("C03", format!("C03/{}/suffix/f64", vd.name), rule, 600, 20_000, strategy(vd, 20), check(vd, false)).with_shard(200));
